@@ -23,7 +23,7 @@ theorem readRune_shift (b : Nat) (f : File) (pos ch : Nat) :
 theorem matchString_shift (b : Nat) (f : File) (pos : Nat) (str : Bytes) :
     matchString (shiftFile b f) (pos + b) str = (matchString f pos str).map (shiftP b) := by
   unfold matchString
-  simp only [shiftFile_offset, shiftFile_data, shiftFile_len, shiftFile_pos, Nat.add_lt_add_iff_right,
+  simp only [shiftFile_offset, shiftFile_data, shiftFile_pos, Nat.add_lt_add_iff_right,
     Nat.add_sub_add_right]
   repeat' split
   all_goals simp_all [shiftP]
@@ -31,7 +31,7 @@ theorem matchString_shift (b : Nat) (f : File) (pos : Nat) (str : Bytes) :
 theorem matchWord_shift (b : Nat) (f : File) (pos : Nat) (w : Bytes) :
     matchWord (shiftFile b f) (pos + b) w = (matchWord f pos w).map (shiftP b) := by
   unfold matchWord
-  simp only [shiftFile_offset, shiftFile_data, shiftFile_len, shiftFile_pos, Nat.add_lt_add_iff_right,
+  simp only [shiftFile_offset, shiftFile_data, shiftFile_pos, Nat.add_lt_add_iff_right,
     Nat.add_sub_add_right]
   repeat' split
   all_goals simp_all [shiftP]
